@@ -102,6 +102,34 @@ from ._rt import with_variants                     # noqa: E402
 evaluate = with_variants(evaluate_one)
 
 
+# ---- a small complete family around "a join job released twice": three entry jobs (one of
+# them may raise, non-critical) and a job that requires two of them, under a window of 1 or
+# 2, every combination of durations {0,1}, extra yields (0..3 for the second requirement) and
+# six iteration orders
+_HK = [(0, 1, 2, 3), (3, 2, 1, 0), (1, 3, 0, 2), (2, 0, 3, 1), (0, 0, 0, 0), (5, 1, 5, 1)]
+
+
+def _join_family(chunk):
+    import itertools
+    window = 1 + chunk % 2
+    a_out = ('return', 'raise')[chunk // 2 % 2]
+    hk = _HK[chunk // 4]
+    for ka, kb, kd, da, db, dd, kc in itertools.product(
+            (0, 1), (0, 1, 2, 3), (0, 1), (0, 1), (0, 1), (1, 2), (0, 1)):
+        def job(n, d, k, outcome='return'):
+            return dict(kind='job', id='j%d' % (n + 1), cls='abstract', d=d, k=k,
+                        outcome=outcome, critical=False, forever=False, c=0, sd=0,
+                        hkey=hk[n], tkey=n % 2)
+        yield dict(kind='sched', id='s0', cls='nestable', window=window, timeout=None, sdt=1,
+                   critical=False, forever=False, verbose=False, hkey=0, tkey=0,
+                   members=[job(0, da, ka, a_out), job(1, db, kb), job(2, dd, kd),
+                            job(3, 0, kc)],
+                   edges=[[0, 3], [1, 3]], order=[0, 1, 2, 3], build='ctor')
+
+
 def sweeps(tier):
-    # deterministic part: flat schedulers of 9 .. 1025 members (just above powers of two)
-    return [S.ladder_sweep(['plain', 'forever'])]
+    # deterministic parts: flat schedulers of 9 .. 1025 members (just above powers of two),
+    # and the complete "join under a window" family (6 144 runs)
+    return [S.ladder_sweep(['plain', 'forever']),
+            ('join of two requirements under a window: all durations x yields x orders', 24,
+             _join_family)]
